@@ -329,3 +329,93 @@ Proof.
   - apply forallb_forall. intros [qi q] Hin. simpl. apply nodupb_spec.
     unfold sinv in Hs. rewrite Forall_forall in Hs. apply (Hs _ Hin).
 Qed.
+
+(** * the index has no duplicate keys, hence the executable monitor [index_ok] holds *)
+Definition idx_nodup (s : state) : Prop := NoDup (map fst (s_index s)).
+
+Lemma alookup_none_notin {A} k (l : list (N * A)) : alookup k l = None -> ~ In k (map fst l).
+Proof.
+  induction l as [|[k' v] l IH]; simpl; [tauto|]. destruct (k' =? k) eqn:E; [discriminate|].
+  intros H [H1|H1]; [subst; rewrite N.eqb_refl in E; discriminate|]. now apply IH.
+Qed.
+
+Lemma submit_loop_idx_nodup qi permit : forall script q idx q2 idx2 outs sc,
+  submit_loop qi permit script q idx = Ok (q2, idx2, outs, sc) -> NoDup (map fst idx) -> NoDup (map fst idx2).
+Proof.
+  induction permit as [|n rest IH]; simpl; intros script q idx q2 idx2 outs sc H ND; [now inv H|].
+  destruct script as [|[id| |] script']; [discriminate| | |].
+  - destruct (alookup id idx) eqn:Ei; [discriminate|]. bind_inv H. bind_inv H.
+    destruct x0 as [[[q2' idx2'] outs'] sc']. inv H. eapply IH; eauto. simpl. constructor; auto.
+    now apply alookup_none_notin.
+  - now inv H.
+  - now inv H.
+Qed.
+
+Lemma queue_try_submit_idx_nodup s qj r script s' outs sc :
+  queue_try_submit s qj r script = Ok (s', outs, sc) -> idx_nodup s -> idx_nodup s'.
+Proof.
+  unfold queue_try_submit, idx_nodup. intros H I.
+  destruct (resp_is_empty r); [now inv H|].
+  destruct (get_queue s qj) as [q|] eqn:Eq; [|now inv H].
+  destruct (negb (q_active q)); [now inv H|].
+  bind_inv H. destruct x as [|p0 permit]; [now inv H|].
+  destruct (submission_status (s_now s) (q_lim q)); try now inv H.
+  bind_inv H. destruct x as [[[q1 idx1] outs1] sc1]. inv H. simpl.
+  eapply submit_loop_idx_nodup; eauto.
+Qed.
+
+Lemma submit_queues_idx_nodup order : forall s resps scripts s' outs,
+  submit_queues s order resps scripts = Ok (s', outs) -> idx_nodup s -> idx_nodup s'.
+Proof.
+  induction order as [|qi order IH]; simpl; intros s resps scripts s' outs H I; [now inv H|].
+  destruct resps as [|r resps]; [now inv H|].
+  bind_inv H. destruct x as [[s1 o1] sc1]. bind_inv H. destruct x as [s2 o2]. inv H.
+  eapply IH; eauto. eapply queue_try_submit_idx_nodup; eauto.
+Qed.
+
+Lemma index_remove_all_nodup ids : forall idx idx',
+  index_remove_all ids idx = Ok idx' -> NoDup (map fst idx) -> NoDup (map fst idx').
+Proof.
+  induction ids as [|x ids IH]; simpl; intros idx idx' H ND; [now inv H|].
+  destruct (alookup x idx); [|discriminate]. eapply IH; eauto. now apply nodup_map_filter.
+Qed.
+
+Lemma step_idx_nodup s o s' outs : sinv s -> step s o = Ok (s', outs) -> idx_nodup s -> idx_nodup s'.
+Proof.
+  unfold idx_nodup. destruct o; simpl; intros Hs H I.
+  - destruct lim as [[[delays sf] af]|]; [destruct delays as [|d ds]; [discriminate|]|]; inv H; exact I.
+  - unfold perform_submits in H.
+    destruct (negb (perm_of order (active_qids (try_pause_all s)))); [discriminate|].
+    destruct (negb (forallb resp_valid resps)); [discriminate|].
+    destruct (active_qids (try_pause_all s)); [now inv H|].
+    bind_inv H. destruct x; [now inv H|].
+    bind_inv H. bind_inv H. destruct x0 as [s2 o2]. inv H. simpl.
+    apply (submit_queues_idx_nodup _ _ _ _ _ _ Hx1). exact I.
+  - destruct (negb (resp_valid r)); [discriminate|]. bind_inv H. destruct x as [[s1 o1] sc]. inv H.
+    eapply queue_try_submit_idx_nodup; eauto.
+  - unfold do_periodic_update in H. destruct (negb (perm_of _ _)); [discriminate|].
+    destruct (periodic_loop_skel _ _ _ _ _ Hs H) as (E & _). now rewrite E.
+  - destruct (worker_event s a (RConnected w)) as [s1 o1] eqn:Ew. inv H.
+    destruct (worker_event_skel _ _ _ _ _ Hs Ew) as (E & _). now rewrite E.
+  - destruct (worker_event s a (RLost w crashed)) as [s1 o1] eqn:Ew. inv H.
+    destruct (worker_event_skel _ _ _ _ _ Hs Ew) as (E & _). now rewrite E.
+  - now inv H.
+  - destruct (get_queue s q); inv H; exact I.
+  - destruct (get_queue s q); inv H; exact I.
+  - unfold remove_queue in H. destruct (get_queue s q) as [v|]; [|now inv H].
+    destruct (existsb is_running (q_allocs v) && negb force); [now inv H|].
+    bind_inv H. inv H. simpl. eapply index_remove_all_nodup; eauto.
+  - inv H. exact I.
+Qed.
+
+Theorem index_nodup s g : Reach s g -> idx_nodup s.
+Proof.
+  induction 1 as [q0|s g o s' outs R IH H]; [constructor|].
+  eapply step_idx_nodup; eauto using reach_sinv.
+Qed.
+
+(** ** the executable index monitor holds on every reachable state *)
+Theorem index_monitor s g : Reach s g -> index_ok s = true.
+Proof.
+  intros R. apply ixinv_index_ok; [eapply reach_sinv; eauto|eapply index_exact; eauto|eapply index_nodup; eauto].
+Qed.
